@@ -593,12 +593,33 @@ def fs_oracle(script, trace, conf):
         if p[0] == "failw": failing.add(p[1]); everfail = True
         elif p[0] == "okw": failing.discard(p[1])
         elif p[0] == "failu": everfail = True
-    if everfail: return None       # with injected faults the expected end state is left to the model comparison
     paths, kind = conf.split("|")
     want = sorted(x for x in paths.split(",") if x)
     last = trace.split(";")[-1]
     live = last.split("/")[-1]
     got = [] if live in ("none", "empty") else sorted(live.split(","))
+    if everfail:
+        # C13 / C15 with injected faults: "a path that fails to register is reported (once per attempt) without preventing the others".
+        # (1) paths never named by a fault behave as in a fault-free run; (2) in a segment without unwatch calls the number of errors
+        # is the number of watch attempts on paths failing at that moment. The exact end state of the faulted paths is left to the model.
+        faulted = {o.split(":")[1] for o in ops if o.split(":")[0] in ("failw", "failu")}
+        clean = lambda l: [x for x in l if x[:-1] not in faulted]
+        if clean(want) != clean(got): return f"paths without any injected fault: configured {clean(want) or 'nothing'} but registered {clean(got) or 'nothing'} once changes stopped (faults were injected on {sorted(faulted)} only)"
+        failing = set()
+        segs = trace.split(";"); si = 0
+        for o in ops:
+            p = o.split(":")
+            if p[0] == "failw": failing.add(p[1])
+            elif p[0] == "okw": failing.discard(p[1])
+            if p[0] not in ("set", "poke") or si >= len(segs): continue     # only these two produce a trace segment
+            seg = segs[si]; si += 1
+            f = seg.split("/")
+            if len(f) != 3 or not f[1].startswith("e"): continue
+            calls = [c for c in f[0].split(",") if c]
+            if any(c.startswith("unwatch:") for c in calls): continue
+            nfail = sum(1 for c in calls if c.startswith("watch:") and c.split(":")[1][:-1] in failing)
+            if int(f[1][1:]) != nfail: return f"{nfail} failing watch attempt(s) in step `{o}` ({f[0]}) but {f[1][1:]} runtime error(s) reported"
+        return None
     if want != got: return f"configured {want or 'nothing'} but registered {got or live} once changes stopped"
     if not want and live != "none": return "configured set is empty but the watcher was not released"
     return None
@@ -712,7 +733,7 @@ def c15_fs(ctx):
     # the fs worker's side of C15: one runtime error per failed watch / unwatch attempt (the e<n> field of every op), loop continues
     xs = c13_streams(dict(ctx, pid13="C15"))
     for x in xs:
-        x.name = "fs-worker-errors"; x.oracle_failures = []
+        x.name = "fs-worker-errors"; x.oracle_failures = [f for f in x.oracle_failures if "injected fault" in f[3] or "runtime error(s) reported" in f[3]]
     return xs
 
 PLANS["C15"] = dict(
@@ -753,6 +774,15 @@ def worker_cases(seed, n):
                 if all(c[0] != off for c in changes): changes.append((off, r.choice([140, 240, 340])))
             changes.sort()
         cases.append((f"c{i}", thr, r.choice([60, 130]) if slow else 0, arr, changes))
+    # bursts of filter errors against a tiny runtime-error channel drained by a slow error handler (capacity 1-2, 60-90 ms per error):
+    # the error channel is full while further events error; judged by the schedule-independent oracle only
+    for i in range(max(6, n // 8)):
+        k = r.randint(3, 8); t = 0; arr = []
+        for j in range(k):
+            t += r.choice([0, 10, 10, 20, 50]) if j else 0
+            if arr and t == arr[-1][0]: t += 10
+            arr.append((t, f"b{i}x{j}", r.choice("nnnnhl"), "t", r.choice("eeeeppr")))
+        cases.append((f"eb{i}", r.choice([100, 150]), f"0e{r.choice([1, 1, 2])}x{r.choice([60, 90])}", arr, []))
     return cases
 
 def worker_oracle(thr, arr, sent, got, errs, filtered, changes=()):
@@ -816,7 +846,7 @@ def worker_stream(pid, ctx):
         for tg, ids in got:
             if not any(a[2] == "u" for a in arr if a[1] in ids) and all(x in sent for x in ids):
                 if not changes: worst_late = max(worst_late, tg - (min(sent[x] for x in ids) + thr * 1000))
-        s.bump(f"throttle={thr}"); s.bump("slow-handler" if hm else "instant-handler"); s.bump("throttle-changes-at-run-time" if changes else "fixed-throttle"); s.bump(f"batches={min(len(got), 4)}")
+        s.bump(f"throttle={thr}"); s.bump("error-burst, full error channel" if isinstance(hm, str) else "slow-handler" if hm else "instant-handler"); s.bump("throttle-changes-at-run-time" if changes else "fixed-throttle"); s.bump(f"batches={min(len(got), 4)}")
         if len(got) >= 2: s.nontrivial.add(hashlib.md5((lines[i].split(" ", 1)[1] + canon).encode()).digest()[:8])
         if i % max(1, len(cases) // 3) == 0 and len(s.samples) < 3: s.samples.append({"case": lines[i], "impl": line[:300], "model": mo[:300]})
     # a composition mismatch in a deterministic case depends on wall-clock scheduling: it counts only if it persists in 3 re-runs
@@ -835,7 +865,8 @@ def worker_stream(pid, ctx):
     s.distribution["worst lateness after window end (us)"] = worst_late
     s.note = ("the real action::worker with own channels in REAL time (std Instant is not virtualised): arrivals on a 50 ms grid with throttles 0/120/170/220 ms (every arrival 20-30 ms away "
               "from a window edge), a quarter of the cases on a 100 ms grid with the throttle changed at run time (140/240/340 ms, changes 30 ms away from arrivals and edges), scripted filter verdicts keyed by event id, priorities incl. urgent, empty events; 3/4 of the cases have an instant handler and their batch "
-              "composition / error count / filter-call list must equal the model's zero-latency run (a mismatch counts only if it persists in three re-runs); 1/4 have a slow handler and "
+              "composition / error count / filter-call list must equal the model's zero-latency run (a mismatch counts only if it persists in three re-runs); 1/4 have a slow handler, and a further eighth "
+              "are bursts of filter errors against a runtime-error channel of capacity 1-2 drained by a slow error handler (the worker blocks on the full channel); these "
               "are judged by the schedule-independent oracle only (conservation, never-rejected, non-empty, filter bypass, strict lower bound)")
     return s
 
@@ -906,6 +937,8 @@ def quit_cases(seed, n):
         "q_timer g:15:100 20 I,I~n:start;y;n:gtryrestart:2:500", "q_pending g:15:40 10 I~n:start;y;n:gstop:15:300;n:run:1",
         "q_deleted g:15:100 10 I~n:start;y;n:delete/I~n:start", "q_never g:15:100 0 I~/F,I~n:start", "q_three g:15:200 30 I~n:start/I~n:start/I~n:start",
         "q_f4 g:15:50 100 I,E1000,I~n:start;y;n:gtryrestart:15:20", "q_grace0 g:9:0 5 I~n:start", "q_abort_timer abort 21 I,I~n:start;y;n:gtryrestart:2:500",
+        # jobs created and started inside the very action that requests the quit (`+`)
+        "l_g g:15:100 50 I~n:start/+I~", "l_abort abort 50 I~n:start/+I~", "l_only g:15:40 10 +E500~", "l_only_abort abort 10 +I~", "l_two g:2:30 0 +S10~/+I~/F,I~n:start",
     ]
     out = list(fixed)
     def beh():
@@ -926,6 +959,8 @@ def quit_cases(seed, n):
                 ops.append(op())
                 if r.random() < 0.4: ops.append("y")
             jobs.append(",".join(beh() for _ in range(r.randint(1, 3))) + "~" + ";".join(ops))
+        for _ in range(r.choice([0, 0, 0, 1, 1, 2])):
+            jobs.append("+" + ",".join(beh() for _ in range(r.randint(1, 2))) + "~")
         manner = "abort" if r.random() < 0.25 else f"g:{r.choice([15, 2, 9, 10])}:{r.choice([0, 40, 100, 300])}"
         out.append(f"q{seed}_{i} {manner} {r.choice([0, 1, 10, 20, 21, 50, 51, 100, 300])} {'/'.join(jobs)}")
     return out
@@ -953,9 +988,11 @@ def c08_streams(ctx):
     for c in cases:
         cid, manner, adv, jobs = c.split(" ")
         for ji, j in enumerate(jobs.split("/")):
-            behs, ops = j.split("~")
+            late = j.startswith("+")
+            behs, ops = j.lstrip("+").split("~")
             ops = [o for o in ops.split(";") if o]
-            tail = [f"a:{adv}"] + ([] if manner == "abort" else [f"n:gstop:{manner.split(':')[1]}:{manner.split(':')[2]}", "n:delete", "a:3000"])
+            # a late job is created and started by the quitting action itself: Start is queued just before the quit's controls
+            tail = [f"a:{adv}"] + (["n:start"] if late else []) + (["y"] if late and manner == "abort" else []) + ([] if manner == "abort" else [f"n:gstop:{manner.split(':')[1]}:{manner.split(':')[2]}", "n:delete", "a:3000"])
             jl.append(f"{cid}.{ji} {behs} {';'.join(ops + tail)}")
     (d / "jobs.txt").write_text("\n".join(jl) + "\n")
     ok, err = core.run_driver(["job", "all"], d / "jobs.txt", d / "model.txt")
@@ -965,7 +1002,7 @@ def c08_streams(ctx):
     for i, c in enumerate(cases):
         cid, manner, adv, jobs = c.split(" "); adv = int(adv)
         im = impl[c].split(" ", 1)[1]
-        m = re.match(r"main=(\S+)@(\d+) dead=(\S+) ?(.*)$", im)
+        m = re.match(r"main=(\S+)@(\d+) dead=(\S*) ?(.*)$", im)
         if not m: s.disagreements.append((i, c, im, "unparsable")); continue
         mainres, took, traces = m.group(1), int(m.group(2)), m.group(4).split(" // ")
         njobs = len(jobs.split("/"))
@@ -987,16 +1024,19 @@ def c08_streams(ctx):
                         elif p[1] == "reaped": live.discard(p[2])
                     body = body + [f"{adv}:dropped:{x}" for x in sorted(live)]
                 cands.append(("|".join(body), max(ended) if ended else None))
-            hit = [cnd for cnd in cands if cnd[0] == got]
-            if not hit: bad = f"job {ji}: implementation `{got}` not among the model's traces {[x[0] for x in cands[:3]]}"; break
-            if manner != "abort": exp_end = max(exp_end, max((h[1] if h[1] is not None else adv) for h in hit))
-            # C08: nothing started by a job survives
+            if manner == "abort" and jobs.split("/")[ji].startswith("+"): cands.append(("", None))   # the new task is aborted before it was ever polled
+            # C08: nothing started by a job survives (judged on the implementation's own log, whatever the model says)
             live = set()
             for e in got.split("|"):
                 p = e.split(":")
                 if len(p) > 2 and p[1] == "spawn": live.add(p[2])
                 elif len(p) > 2 and p[1] in ("reaped", "dropped"): live.discard(p[2])
             alive += [f"job{ji}:{x}" for x in live]
+            hit = [cnd for cnd in cands if cnd[0] == got]
+            if not hit:
+                if bad is None: bad = f"job {ji}: implementation `{got}` not among the model's traces {[x[0] for x in cands[:3]]}"
+                continue
+            if manner != "abort": exp_end = max(exp_end, max((h[1] if h[1] is not None else adv) for h in hit))
         exp_took = 0 if manner == "abort" else max(0, exp_end - adv)
         if bad is None and (mainres != "ok" or took != exp_took): bad = f"main finished {mainres} {took} ms after the quit, the model says ok after {exp_took} ms"
         if bad: s.disagreements.append((i, c, im, bad))
